@@ -150,23 +150,52 @@ def parse_extract(line):
     return tk[0], tk[1], macros
 
 
+# (definitions, vocabulary for the exhaustive short streams, hand-written streams exercising overlaps)
 FAMILIES = [
-    # priorities with ties, overlapping candidates, literal text, every slot kind, nested calls, multi-statement bodies
-    ['DEFINE PRIO 0 <V> <P> + AS q $1 $1 END DEFINE', 'DEFINE PRIO 0 <ID> <ID> AS 9 $1 END DEFINE'],
-    ['DEFINE PRIO 0 <ID> <ID> AS 9 $1 END DEFINE', 'DEFINE PRIO 0 <V> <P> + AS q $1 $1 END DEFINE'],
-    ['DEFINE PRIO 5 a b AS x END DEFINE', 'DEFINE PRIO 7 b a AS y END DEFINE', 'DEFINE PRIO 5 a AS z END DEFINE'],
-    ['DEFINE <ID> + <INT> AS RUN inc WITH $0 , $1 END END DEFINE', 'DEFINE PRIO 2 <V> + AS p $0 END DEFINE'],
-    ['DEFINE PRIO 3 IF <V> THEN <P> ELSE <P> FI AS #0 := $0 ; LOOP #0 DO $1 END ; $2 END DEFINE'],
-    ['DEFINE f ( <ARGS> ) AS RUN f WITH $0 END END DEFINE', 'DEFINE <INT> ! AS $0 $0 END DEFINE'],
-    ['DEFINE PRIO 1 1 a AS one END DEFINE', 'DEFINE PRIO 1 <INT> a AS int END DEFINE', 'DEFINE PRIO 1 + a AS plus END DEFINE'],
-    ['DEFINE swap <ID> <ID> AS #0 := $0 ; $0 := $1 ; $1 := #0 END DEFINE', 'DEFINE twice <P> end AS $0 ; $0 END DEFINE'],
-    ['DEFINE PRIO 9 a AS b END DEFINE', 'DEFINE PRIO 8 b AS a a END DEFINE'],
-    ['DEFINE <V> + <V> AS RUN add WITH $0 , $1 END END DEFINE', 'DEFINE PRIO 4 <V> * <V> AS RUN mul WITH $1 , $0 END END DEFINE'],
-    ['DEFINE <P> ; AS $0 END DEFINE', 'DEFINE a AS ok END DEFINE'],
-    ['DEFINE PRIO 2 x : <P> ; ; AS $0 END DEFINE', 'DEFINE PRIO 2 <ID> : = AS $0 := END DEFINE'],
+    (['DEFINE PRIO 0 <V> <P> + AS q $1 $1 END DEFINE', 'DEFINE PRIO 0 <ID> <ID> AS 9 $1 END DEFINE'],
+     ['a', 'b', '1', '+', ';', ':=', 'x', 'STOP'], ['b b := b + 1', 'a b x := 1 + b', 'a a b := 1 + a', '1 a := 1 ; b := a + b b']),
+    (['DEFINE PRIO 0 <ID> <ID> AS 9 $1 END DEFINE', 'DEFINE PRIO 0 <V> <P> + AS q $1 $1 END DEFINE'],
+     ['a', 'b', '1', '+', ';', ':=', 'x', 'STOP'], ['b b := b + 1', 'a b x := 1 + b', 'a a b := 1 + a', 'x a b STOP + b']),
+    (['DEFINE PRIO 5 a b AS x END DEFINE', 'DEFINE PRIO 7 b a AS y END DEFINE', 'DEFINE PRIO 5 a AS z END DEFINE'],
+     ['a', 'b', 'x', 'y', 'z', '1', ';', ':='], ['a b a b', 'b a b a a', 'a a b b a']),
+    (['DEFINE <ID> + <INT> AS RUN inc WITH $0 , $1 END END DEFINE', 'DEFINE PRIO 2 <V> + AS p $0 END DEFINE'],
+     ['a', 'b', '1', '2', '+', ':=', ';', 'x'], ['a := b + 1 + 2', 'a + 1 + b + 2 +', 'x := a + b + 1']),
+    (['DEFINE PRIO 3 IF <V> THEN <P> ELSE <P> FI AS #0 := $0 ; LOOP #0 DO $1 END ; $2 END DEFINE'],
+     ['IF', 'a', 'THEN', 'x', ':=', '1', 'ELSE', 'FI'], ['IF a THEN x := 1 ELSE x := a FI', 'IF 1 THEN IF a THEN x := 1 ELSE x := 1 FI ELSE a := 1 FI',
+                                                         'IF a THEN x := 1 ; a := x ELSE a := 1 FI ; IF x THEN a := 1 ELSE x := 1 FI']),
+    (['DEFINE f ( <ARGS> ) AS RUN f WITH $0 END END DEFINE', 'DEFINE <INT> ! AS $0 $0 END DEFINE'],
+     ['f', '(', ')', 'a', ',', '1', '!', '+'], ['f ( a , 1 ) 1 !', 'f ( f ( a ) , 1 ! )', 'f ( 1 ! , a )']),
+    (['DEFINE PRIO 1 1 a AS one END DEFINE', 'DEFINE PRIO 1 <INT> a AS int END DEFINE', 'DEFINE PRIO 1 + a AS plus END DEFINE'],
+     ['1', '2', 'a', '+', '-', 'b', ';', 'x'], ['1 a 2 a + a - a', '2 a 1 a', '+ a 1 a']),
+    (['DEFINE swap <ID> <ID> AS #0 := $0 ; $0 := $1 ; $1 := #0 END DEFINE', 'DEFINE twice <P> end AS $0 ; $0 END DEFINE'],
+     ['swap', 'twice', 'a', 'b', ':=', '1', ';', 'end'], ['twice swap a b end', 'swap a b ; swap b a', 'twice twice a := 1 end end']),
+    (['DEFINE PRIO 9 a AS b END DEFINE', 'DEFINE PRIO 8 b AS a a END DEFINE'],
+     ['a', 'b', 'x', '1', ';', ':=', '+', 'c'], ['a b', 'b a b', 'x a']),
+    (['DEFINE PRIO 10 <V> - <V> AS RUN sub WITH $0 , $1 END END DEFINE', 'DEFINE PRIO 10 <V> + <V> AS RUN add WITH $0 , $1 END END DEFINE',
+      'DEFINE PRIO 30 <ID> ( <ARGS> ) AS RUN $0 WITH $1 END END DEFINE'],
+     ['a', 'b', '-', '+', 'f', '(', ')', '1'], ['r := x - y + f ( z )', 'a - b + f ( 1 )', 'a + b - f ( a , b )', 'x + y - z + 1 - 2']),
+    (['DEFINE PRIO 10 <V> + <V> AS RUN add WITH $0 , $1 END END DEFINE', 'DEFINE PRIO 10 <V> - <V> AS RUN sub WITH $0 , $1 END END DEFINE',
+      'DEFINE PRIO 10 <V> * <V> AS RUN mul WITH $1 , $0 END END DEFINE'],
+     ['a', 'b', '-', '+', '*', '1', 'x', ':='], ['x - y + RUN f WITH z END', 'a * b + 1 - a', 'a - RUN g WITH 1 END * b']),
+    (['DEFINE <P> ; AS $0 END DEFINE', 'DEFINE a AS ok END DEFINE'],
+     ['a', 'b', ':=', '1', ';', 'x', 'STOP', 'ok'], ['a ; a', 'x := 1 ; a']),
+    (['DEFINE PRIO 2 x : <P> ; ; AS $0 END DEFINE', 'DEFINE PRIO 2 <ID> : = AS $0 := END DEFINE'],
+     ['x', ':', ';', '=', 'a', ':=', '1', 'STOP'], ['x : a := 1 ; ; a : = 1', 'a : = x : STOP ; ;']),
 ]
-VOCABS = [['a', 'b', '1', '+', ';', ':=', 'x', '!'], ['a', 'b', 'x', ':=', '1', ';', 'STOP', 'end'], ['f', '(', ')', 'a', ',', '1', '!', '+'],
-          ['IF', 'a', 'THEN', 'x', ':=', '1', 'ELSE', 'FI'], ['swap', 'twice', 'a', 'b', ':=', '1', ';', 'end'], ['x', ':', ';', '=', 'a', ':=', '1', '*']]
+
+
+def mutate_stream(rng, stream, voc):
+    t = stream.split()
+    for _ in range(rng.randint(1, 3)):
+        x = rng.random()
+        i = rng.randrange(len(t) + 1)
+        if x < 0.4 or not t:
+            t.insert(i, rng.choice(voc))
+        elif x < 0.7:
+            del t[min(i, len(t) - 1)]
+        else:
+            t[min(i, len(t) - 1)] = rng.choice(voc)
+    return ' '.join(t)
 
 
 def explore(ctx, res, replay=None):
@@ -206,7 +235,12 @@ def explore(ctx, res, replay=None):
             add('pattern', ['DEFINE %s AS hit END DEFINE' % ' '.join(p), 'DEFINE GOOD AS fine END DEFINE'], 'GOOD ; %s ; GOOD %s end' % (use, use), [4])
     else:
         L = 4 if quick else 6
-        for fam, voc in zip(FAMILIES, VOCABS * 2):
+        for fam, voc, seeds in FAMILIES:
+            bl = [1] if pid == 'C09' else [1, 2, 3, 5]
+            for sd in seeds:
+                add('seed', fam, sd, bl)
+                for _ in range(30 if quick else 400):
+                    add('seed_mutant', fam, mutate_stream(rng, sd, voc), bl)
             for ln in range(1, L + 1):
                 combos = list(itertools.product(voc, repeat=ln))
                 if len(combos) > (400 if quick else 20000):
@@ -215,8 +249,7 @@ def explore(ctx, res, replay=None):
                     add('family', fam, ' '.join(w), [1] if pid == 'C09' else [1, 2, 3, 5])
         # longer random streams with nested uses
         for _ in range(300 if quick else 5000):
-            fam = rng.choice(FAMILIES)
-            voc = rng.choice(VOCABS)
+            fam, voc, _ = rng.choice(FAMILIES)
             add('random', fam, ' '.join(rng.choice(voc) for _ in range(rng.randint(5, 14))), [1, 2, 4, 16] if pid != 'C09' else [1])
         if pid in ('C10', 'C11'):
             hyg = ['DEFINE swap <ID> <ID> AS #0 := $0 ; $0 := $1 ; $1 := #0 END DEFINE', 'DEFINE twice <P> end AS $0 ; $0 END DEFINE',
@@ -231,7 +264,7 @@ def explore(ctx, res, replay=None):
     mout = ctx.run_model(cases, timeout_case=30)
     res.rule = {
         'C12': 'every pattern up to length %d (and a sample of length 3) over 5 slot kinds and 7 literal kinds, defined beside an accepted macro and used in the stream' % (2 if quick else 3),
-    }.get(pid, 'twelve macro families (priority ties, overlapping candidates, literal-text constraints, every slot kind, nested calls, multi-statement bodies, temporaries) '
+    }.get(pid, 'thirteen macro families (priority ties, overlapping candidates, literal-text constraints, every slot kind, nested calls, multi-statement bodies, temporaries) '
                'x all streams up to length %d over 8-token vocabularies (sampled), random longer streams, self-reproducing sets; budgets 1..16 (and 1024)' % (4 if quick else 6)) + \
         '. Non-trivial = at least one rewriting step happened; distinct by (definitions, stream).'
     by_n = {}
